@@ -256,6 +256,8 @@ def load_known():
 
 def _subset(pat, obj):
     """pattern matching: dict = recursive subset; list in pattern = any-of alternatives for scalars."""
+    if isinstance(pat, dict) and "$any" in pat:
+        return any(_subset(alt, obj) for alt in pat["$any"])
     if isinstance(pat, dict):
         if not isinstance(obj, dict):
             return False
